@@ -148,21 +148,28 @@ func (kgdb *KVInterfaceGDB) AddEdge(edges []*gdbi.Edge) error {
 func (kgdb *KVInterfaceGDB) BulkAdd(stream <-chan *gdbi.GraphElement) error {
 	err := kgdb.kvg.kv.BulkWrite(func(tx kvi.KVBulkWrite) error {
 		var bulkErr *multierror.Error
+		inserted := 0
 		for elem := range stream {
 			if elem.Vertex != nil {
 				if err := insertVertex(tx, kgdb.kvg.idx, kgdb.graph, elem.Vertex.ToVertex()); err != nil {
 					bulkErr = multierror.Append(bulkErr, err)
+				} else {
+					inserted++
 				}
 				continue
 			}
 			if elem.Edge != nil {
 				if err := insertEdge(tx, kgdb.kvg.idx, kgdb.graph, elem.Edge.ToEdge()); err != nil {
 					bulkErr = multierror.Append(bulkErr, err)
+				} else {
+					inserted++
 				}
 				continue
 			}
 		}
-		kgdb.kvg.ts.Touch(kgdb.graph)
+		if inserted > 0 {
+			kgdb.kvg.ts.Touch(kgdb.graph)
+		}
 		return bulkErr.ErrorOrNil()
 	})
 	return err
